@@ -97,3 +97,42 @@ func VerifC06Containers(b *Bitmap) []VerifC06Item {
 	}
 	return out
 }
+
+// VerifC06OpsOffset returns the position at which unmarshalPilosaRoaring starts
+// to read the op log of data: the end of the container it attached last. It
+// repeats the walk of unmarshalPilosaRoaring over the header and offset
+// sections and may only be called on data that UnmarshalBinary has accepted
+// as Pilosa format.
+func VerifC06OpsOffset(data []byte) int {
+	keyN := int(uint32(data[4]) | uint32(data[5])<<8 | uint32(data[6])<<16 | uint32(data[7])<<24)
+	b := NewSliceBitmap()
+	for i := 0; i < keyN; i++ {
+		h := data[headerBaseSize+i*12:]
+		key := uint64(0)
+		for j := 7; j >= 0; j-- {
+			key = key<<8 | uint64(h[j])
+		}
+		b.Containers.PutContainerValues(key, h[8], int(uint16(h[10])|uint16(h[11])<<8)+1, true)
+	}
+	opsOffset := headerBaseSize + keyN*12
+	citer, _ := b.Containers.Iterator(0)
+	for i := 0; i < keyN; i++ {
+		o := data[headerBaseSize+keyN*12+i*4:]
+		offset := int(uint32(o[0]) | uint32(o[1])<<8 | uint32(o[2])<<16 | uint32(o[3])<<24)
+		citer.Next()
+		_, c := citer.Value()
+		if c == nil {
+			continue
+		}
+		switch c.typ() {
+		case containerRun:
+			runCount := int(uint16(data[offset]) | uint16(data[offset+1])<<8)
+			opsOffset = offset + runCountHeaderSize + runCount*interval16Size
+		case containerArray:
+			opsOffset = offset + int(c.N())*2
+		case containerBitmap:
+			opsOffset = offset + bitmapN*8
+		}
+	}
+	return opsOffset
+}
